@@ -88,6 +88,9 @@ class Disc:
     samples: Dict[int, Sample]
     version_flag: int = 1  # 1 -> 0xffff, 2 -> 0xfffe (link pointers carry +0x8000)
     num_performances: Optional[int] = None
+    table_layout: Optional[str] = None  # how the pointer tables (volume -> performances, performance -> patches,
+    # patch -> partials) are filled: "compact" (from slot 0), "holes" (unused slots between and before the used
+    # ones), "back" (used slots at the end); None = drawn per image (S158: a table is not a -1-terminated list)
 
 
 def dir_entry(name: str, kind: str, fat_entry: int = 0, nclusters: int = 0, v2: bool = False) -> bytes:
@@ -95,10 +98,25 @@ def dir_entry(name: str, kind: str, fat_entry: int = 0, nclusters: int = 0, v2: 
     return name16(name) + bytes([TYPE[kind], 0]) + struct.pack("<HHHIHH", link, link, 0, 0, fat_entry, nclusters)
 
 
+def spread(lst: List[int], n: int, layout: str, rng) -> List[int]:
+    """the pointers of `lst` in a table of n slots, unused slots = -1."""
+    k = len(lst)
+    if layout == "back":
+        return [-1] * (n - k) + list(lst)
+    if layout == "holes" and k < n:
+        pos = sorted(rng.sample(range(1, n), k)) if k < n - 1 else list(range(n - k, n))  # slot 0 stays unused
+        out = [-1] * n
+        for p_, v_ in zip(pos, lst):
+            out[p_] = v_
+        return out
+    return list(lst) + [-1] * (n - k)
+
+
 def serialize(disc: Disc, rng, shapes=("contiguous", "reversed", "random", "head-not-lowest")):
     nclusters_total = 2
+    layout_t = disc.table_layout or rng.choice(["compact", "compact", "holes", "back"])
     layout = {}
-    info = {"chains": {}, "exact_fill": 0, "head_not_lowest": 0}
+    info = {"chains": {}, "exact_fill": 0, "head_not_lowest": 0, "table_layout": layout_t}
     # allocate clusters for every sample
     free = list(range(2, 2 + sum(-(-max(1, 2 * len(s.words)) // CLUSTER) + s.cluster_top for s in disc.samples.values()) + 8))
     nclusters_total = free[-1] + 1
@@ -187,7 +205,7 @@ def serialize(disc: Disc, rng, shapes=("contiguous", "reversed", "random", "head
         img[DIR["patch"] + 32 * qi : DIR["patch"] + 32 * qi + 32] = dir_entry(q.name, "patch", v2=v2)
         par = bytearray(512)
         par[0:16] = name16(q.name)
-        lst = q.partials + [-1] * (88 - len(q.partials))
+        lst = spread(q.partials, 88, layout_t, rng)
         par[256:432] = struct.pack("<88h", *lst)
         o = PAR["patch"][0] + 512 * qi
         img[o : o + 512] = par
@@ -195,7 +213,7 @@ def serialize(disc: Disc, rng, shapes=("contiguous", "reversed", "random", "head
         img[DIR["perf"] + 32 * fi : DIR["perf"] + 32 * fi + 32] = dir_entry(f.name, "perf", v2=v2)
         par = bytearray(512)
         par[0:16] = name16(f.name)
-        lst = f.patches + [-1] * (32 - len(f.patches))
+        lst = spread(f.patches, 32, layout_t, rng)
         par[256:320] = struct.pack("<32h", *lst)
         o = PAR["perf"][0] + 512 * fi
         img[o : o + 512] = par
@@ -203,7 +221,7 @@ def serialize(disc: Disc, rng, shapes=("contiguous", "reversed", "random", "head
         img[DIR["vol"] + 32 * vi : DIR["vol"] + 32 * vi + 32] = dir_entry(v.name, "vol", v2=v2)
         par = bytearray(256)
         par[0:16] = name16(v.name)
-        lst = v.performances + [-1] * (64 - len(v.performances))
+        lst = spread(v.performances, 64, layout_t, rng)
         par[32:160] = struct.pack("<64h", *lst)
         o = PAR["vol"][0] + 256 * vi
         img[o : o + 256] = par
